@@ -432,8 +432,14 @@ func TestVerifC04WeightCmd(t *testing.T) {
 
 // the round-robin position after very many lookups: the cursor is set (through reflection: the field is the
 // implementation's) shortly before the powers of two where a narrower or signed counter would wrap
-func TestVerifC04Cursor(t *testing.T) {
-	L := ev.Begin("C04", "c04-cursor", "exploration",
+func TestVerifC04Cursor(t *testing.T) { c04Cursor("C04", "c04-cursor") }
+
+// the same enumeration decides the C06 clause "round-robin hands each target its exact share of the lookups
+// performed": the lookups in front of the window may have come from any number of simultaneous requests
+func TestVerifC06Cursor(t *testing.T) { c04Cursor("C06", "c06-cursor") }
+
+func c04Cursor(prop, layer string) {
+	L := ev.Begin(prop, layer, "exploration",
 		"routes of 3, 5, 6 and 7 unweighted targets and one weighted 3-target route (0.5, dynamic, dynamic), the round-robin cursor set to 2^k - ring length - 1 for k in {8, 15, 16, 31, 32, 33}, then three ring lengths of real picks across the boundary: every window of one ring length (a full cycle) gives each target exactly its slots. 2^63 and 2^64 are left out: a ring whose length is no power of two necessarily jumps when a 64-bit counter wraps, after 10^19 lookups. non-trivial = every window")
 	tables := []string{}
 	for _, n := range []int{3, 5, 6, 7} {
